@@ -453,6 +453,44 @@ def check_barriers_all_modes(rep, prog):
     return fm
 
 
+def parsepel_exit_helpers(prog):
+    """exit call nodes that belong to parsePEL's documented exit_on_error path although they are written in a helper:
+    the helper is a module-level function whose only callers (over-approximate call graph) are parsePEL or other such
+    helpers, and the node is executed when parsePEL is interpreted with its helpers inlined - where the rule above checks
+    that every exit executed there is under exit_on_error.  A helper anything else can call is not exempt."""
+    cached = getattr(prog, "_parsepel_exit_helpers", None)
+    if cached is not None:
+        return cached
+    graph = effects.call_graph(prog)
+    callers = {}
+    for src, dsts in graph.items():
+        for d in dsts:
+            callers.setdefault(d, set()).add(src)
+    own = {PT + "parsePEL"}
+    changed = True
+    while changed:
+        changed = False
+        for q in graph.get(PT + "parsePEL", ()) | set().union(*[graph.get(x, set()) for x in own]):
+            if q not in own and q.startswith(PT) and callers.get(q) and callers[q] <= own:
+                own.add(q)
+                changed = True
+    nodes = set()
+    if len(own) > 1:
+        I = Interpreter(prog, hooks={"opaque": {PT + "sectionFun", PT + "considerPEL", PT + "prettyPrint", PT + "buildOutput"}})
+        st = pelx.new_stream(I)
+        cfg = I.new("pel.peltool.config.Config")
+        I.call(PT + "parsePEL", [st, cfg, Sym("exit_on_error", "exc")])
+        for e in I.events:
+            if e.kind == "exit" and e.func in own:
+                nodes.add(id(e.node))
+    res = (own - {PT + "parsePEL"}, nodes)
+    try:
+        prog._parsepel_exit_helpers = res
+    except Exception:
+        pass
+    return res
+
+
 def check_exits_in_decoders(rep, prog, runs):
     rule = "C05.R3.ordinary-errors"
     executed = set()
@@ -478,6 +516,9 @@ def check_exits_in_decoders(rep, prog, runs):
             # command-line side code (argument validation, mode dispatch) may end the run; parsePEL's own exit is the
             # documented exit_on_error path checked above
             continue
+        hq, hnodes = parsepel_exit_helpers(prog)
+        if tq in hq and id(cs.node) in hnodes:
+            continue            # the same path, written in a helper only parsePEL calls
         n += 1
         dead = q in funcs and id(cs.node) not in executed
         rep.check(dead, rule, "process exit at %s:%s is unreachable (dominated by a contradicting condition)" % (cs.module.rel, cs.node.lineno),
